@@ -5,6 +5,8 @@ Property theorems (helper lemmas live in `Reamber/Lemmas/*`).  Statements are ab
 reamber/algorithms/timing/{TimingMap.py, utils/*.py} on every run.
 -/
 import Reamber.Lemmas.Sweep
+import Reamber.Lemmas.Snapper
+import Reamber.Lemmas.TimingChain
 import Reamber.Spec.Timing
 import Reamber.Generated.Consts
 
@@ -61,11 +63,71 @@ theorem lookupOffset_before_first (rb : List (BcSnap × BcOff)) (q : Snap)
       exact ih (fun p hp => h p (by simp [hp]))
   rw [this]
 
+/-! ### `offsets`: sweep + un-permutation + re-derivation of the positions = piecewise-linear integration -/
+
+/-- **C10 main theorem (positions → milliseconds).**  For every value array `g` that is a valid grid (`GridOK`,
+proved for `grid N`, N ≥ 1, below), every initial offset, every well-formed tempo-change list that is sorted,
+starts at (0, 0), is grid-compatible (hypothesis forced by the code, finding D22) and changes its metronome only
+on measure lines, every list of queries at or after the first change (any order, duplicates allowed), and every
+ascending sorting permutation `σ` numpy may choose:
+`from_bpm_changes_snap(t0, cs, reseat=False)` succeeds, and `TimingMap.offsets` — which re-derives the change
+positions from the stored milliseconds, sweeps the sorted queries backwards and un-permutes — returns exactly
+`timeAt t0 cs q` for every query, in the order of the queries. -/
+theorem offsets_correct (g : Array Rat) (hg : GridOK g) (t0 : Rat) (cs : List BcSnap)
+    (hwf : wfChanges cs = true) (hs : sortedSnaps cs = true) (h0 : firstAtZero cs = true)
+    (hgc : gridCompatible g.toList cs = true) (hm : metronomeOk cs = true)
+    (σ : List Nat) (qs : List Snap) (hσ : SortsAsc σ qs) (hq : ∀ q ∈ qs, queryOk cs q = true) :
+    ∃ tm, fromBcSnapNoReseat t0 cs = .ok tm ∧ offsetsWith g σ tm qs = .ok (qs.map (timeAt t0 cs)) := by
+  refine ⟨tmOf t0 cs, fromBcSnapNoReseat_eq t0 cs hwf hs h0, ?_⟩
+  exact offsetsWith_order g σ (tmOf t0 cs) qs (tmOf t0 cs) cs (timeAt t0 cs)
+    (bcsOfBco_rederive hg t0 cs hwf hs h0 hgc hm) hσ
+    (fun q hqm => lookupOffset_eq_timeAt t0 cs q hwf hs (hq q hqm))
+
+/-- the same through the public entry point `from_bpm_changes_snap(…, reseat=False)` -/
+theorem offsets_correct_fromBcSnap (g : Array Rat) (hg : GridOK g) (t0 : Rat) (cs : List BcSnap)
+    (hwf : wfChanges cs = true) (hs : sortedSnaps cs = true) (h0 : firstAtZero cs = true)
+    (hgc : gridCompatible g.toList cs = true) (hm : metronomeOk cs = true)
+    (σ : List Nat) (qs : List Snap) (hσ : SortsAsc σ qs) (hq : ∀ q ∈ qs, queryOk cs q = true) :
+    ∃ tm, fromBcSnap t0 cs false = .ok tm ∧ offsetsWith g σ tm qs = .ok (qs.map (timeAt t0 cs)) := by
+  obtain ⟨tm, h1, h2⟩ := offsets_correct g hg t0 cs hwf hs h0 hgc hm σ qs hσ hq
+  refine ⟨tm, ?_, h2⟩
+  unfold fromBcSnap
+  rw [sortBcSnap_eq_self hs]
+  cases cs with
+  | nil => simp [firstAtZero] at h0
+  | cons c rest =>
+    simp only [firstAtZero, Bool.and_eq_true, decide_eq_true_eq] at h0
+    simp [h0.1, h0.2, h1]
+
+/-- … and for the grid the code really uses (`Snapper()` with `max(DEFAULT_DIVISIONS) = 96`) -/
+theorem offsets_correct_default (t0 : Rat) (cs : List BcSnap)
+    (hwf : wfChanges cs = true) (hs : sortedSnaps cs = true) (h0 : firstAtZero cs = true)
+    (hgc : gridCompatible (grid defaultMaxDiv) cs = true) (hm : metronomeOk cs = true)
+    (σ : List Nat) (qs : List Snap) (hσ : SortsAsc σ qs) (hq : ∀ q ∈ qs, queryOk cs q = true) :
+    ∃ tm, fromBcSnapNoReseat t0 cs = .ok tm ∧ offsetsWith defaultGrid σ tm qs = .ok (qs.map (timeAt t0 cs)) :=
+  offsets_correct defaultGrid (gridOK_grid (by decide)) t0 cs hwf hs h0 hgc hm σ qs hσ hq
+
+/-- **The stored times are the integration at the change points**: what `from_bpm_changes_snap` stores for
+change `i` is `timeAt` of that change's own position (`changeTimes`). -/
+theorem stored_times_eq_changeTimes (t0 : Rat) (cs : List BcSnap) (hwf : wfChanges cs = true)
+    (hs : sortedSnaps cs = true) : (tmOf t0 cs).map (·.offset) = changeTimes t0 cs :=
+  tmOf_offsets_eq_changeTimes t0 cs hwf hs
+
 /-! non-vacuity: concrete instances of the hypotheses -/
 
 example : SortsAsc [1, 2, 0] [⟨2, 0, none⟩, ⟨0, 1/2, none⟩, ⟨1, 3, none⟩] := by
   refine ⟨by unfold IsPerm; decide, by decide, ?_⟩
   simp [gather, DescSnaps, Snap.le, Snap.lt, Snap.eqv]
+
+/-- the hypotheses of `offsets_correct` are jointly satisfiable on a non-trivial map (three changes, a metronome
+change on a measure line, a change inside a measure), and the conclusion is what the model computes there -/
+example :
+    let cs : List BcSnap := [⟨120, 4, ⟨0, 0, some 4⟩⟩, ⟨60, 3, ⟨1, 0, some 3⟩⟩, ⟨90, 3, ⟨2, 3/2, some 3⟩⟩]
+    let qs : List Snap := [⟨3, 0, none⟩, ⟨0, 7/2, some 4⟩, ⟨2, 3/2, none⟩, ⟨0, 7/2, some 4⟩]
+    wfChanges cs = true ∧ sortedSnaps cs = true ∧ firstAtZero cs = true ∧ gridCompatible (grid 4) cs = true ∧
+      metronomeOk cs = true ∧ (∀ q ∈ qs, queryOk cs q = true) ∧
+      (fromBcSnapNoReseat (-1000) cs).toOption.map (fun tm => (offsets (grid 4).toArray tm qs).toOption)
+        = some (some (qs.map (timeAt (-1000) cs))) := by decide +kernel
 
 example : (offsets (grid 4).toArray [⟨120, 4, 0⟩, ⟨60, 4, 3000⟩] [⟨2, 0, some 4⟩, ⟨0, 1/2, some 4⟩, ⟨1, 3, some 4⟩]).toOption
     = some [5000, 250, 4000] := by decide +kernel
